@@ -6,7 +6,8 @@ def subterms(t):
     while st:
         x = st.pop()
         if isinstance(x, tuple):
-            yield x
+            if x and isinstance(x[0], str):
+                yield x
             for y in x:
                 if isinstance(y, tuple):
                     st.append(y)
